@@ -25,21 +25,42 @@ def parse (t : List String) : Option Op :=
   | ["ls"] => some .ls
   | _ => none
 
-def stepLine (w : Option World) (t : List String) : Option World × String :=
+/-- driver state: the model world and the listener keys the application remembered: (notifier, listener) ↦ connection index -/
+structure DSt where
+  w : Option World := none
+  keys : List ((Nat × Nat) × Nat) := []
+
+def stepLine (d : DSt) (t : List String) : DSt × String :=
   match t with
-  | ["new", variant, mn, ml, idmax, c, d, x, nodes, dl] =>
+  | ["new", variant, mn, ml, idmax, c, dd, x, nodes, dl] =>
       -- the service builder adjusts zero limits to one
       let cfg : Cfg := { maxNot := clamp1 (nat! mn), maxLis := clamp1 (nat! ml), maxNodes := clamp1 (nat! nodes), idMax := nat! idmax,
-                         created := optNat c, dropped := optNat d, dead := optNat x,
+                         created := optNat c, dropped := optNat dd, dead := optNat x,
                          deadline := if dl = "long" then 1 else if dl = "short" then 2 else 0, ipc := variant == "ipc" }
-      (some (World.init cfg), "ok")
+      ({ w := some (World.init cfg) }, "ok")
   | _ =>
-    match w with
-    | none => (none, "no-world")
+    match d.w with
+    | none => (d, "no-world")
     | some w =>
-      match parse t with
-      | none => (some w, "bad-op")
-      | some op => let (w', out) := step w op; (some w', out.render)
+      match t with
+      | ["keys", n] =>
+        let (w', out) := step w (.keys (nat! n))
+        let ks := match out with
+          | .keys k => (d.keys.filter fun e => !(e.1.1 = nat! n && k.any fun x => x.2 = e.1.2)) ++ k.map fun x => ((nat! n, x.2), x.1)
+          | _ => d.keys
+        ({ w := some w', keys := ks }, out.render)
+      | ["notifyone", n, l, i] =>
+        match d.keys.find? fun e => e.1 = (nat! n, nat! l) with
+        | none =>
+          let live : Bool := match w.nots (nat! n) with | some N => decide (N.st = .alive) | none => false
+          (d, if live then "no-key" else "none")
+        | some e =>
+          let (w', out) := step w (.notifyOne (nat! n) e.2 (nat! l) (optNat i))
+          ({ d with w := some w' }, out.render)
+      | _ =>
+        match parse t with
+        | none => (d, "bad-op")
+        | some op => let (w', out) := step w op; ({ d with w := some w' }, out.render)
 
-def comp : Comp := { σ := Option World, init := none, step := stepLine }
+def comp : Comp := { σ := DSt, init := {}, step := stepLine }
 end Driver.EventPortsD
